@@ -409,11 +409,12 @@ func (ty *ArrayType) Assignable(other ExprType) bool {
 func (ty *ArrayType) Merge(other ExprType) ExprType {
 	switch other := other.(type) {
 	case *ArrayType:
-		if _, ok := ty.Elem.(AnyType); ok {
-			return ty
-		}
-		if _, ok := other.Elem.(AnyType); ok {
-			return other
+		_, lany := ty.Elem.(AnyType)
+		_, rany := other.Elem.(AnyType)
+		if lany || rany {
+			// Do not return one of the operands as it is. Its Deref flag would decide whether a property
+			// access to the merged array is allowed, depending on which operand has unknown elements
+			return &ArrayType{Elem: AnyType{}, Deref: ty.Deref || other.Deref}
 		}
 		return &ArrayType{
 			Elem:  ty.Elem.Merge(other.Elem),
